@@ -15,6 +15,11 @@ from symx.core import Num, Fr
 
 PID = 'C13'
 PLANETS = ['Mercury', 'Venus', 'Mars', 'Jupiter', 'Saturn', 'Uranus', 'Neptune']
+# the 28 finders of Meeus chapter 36 the property speaks about: each must be found in the shape the harness can encode
+EXPECTED = ([('Mercury', f) for f in ('inferior_conjunction', 'superior_conjunction', 'western_elongation', 'eastern_elongation', 'station_longitude_1', 'station_longitude_2')]
+            + [('Venus', f) for f in ('inferior_conjunction', 'superior_conjunction', 'western_elongation', 'eastern_elongation', 'station_longitude_1', 'station_longitude_2')]
+            + [(p, f) for p in ('Mars', 'Jupiter', 'Saturn') for f in ('conjunction', 'opposition', 'station_longitude_1', 'station_longitude_2')]
+            + [(p, f) for p in ('Uranus', 'Neptune') for f in ('conjunction', 'opposition')])
 
 REPLAY = r'''
 import importlib
@@ -67,7 +72,7 @@ def finders():
         for n in tree.body:
             if isinstance(n, ast.ClassDef):
                 for f in n.body:
-                    if isinstance(f, ast.FunctionDef) and 'k = round(' in ast.unparse(f) and 'corr' in ast.unparse(f):
+                    if isinstance(f, ast.FunctionDef) and any(isinstance(st, ast.Assign) and isinstance(st.targets[0], ast.Name) and st.targets[0].id == 'jde0' for st in ast.walk(f)) and 'corr' in ast.unparse(f):
                         consts = {}
                         for st in ast.walk(f):
                             if isinstance(st, ast.Assign) and len(st.targets) == 1 and isinstance(st.targets[0], ast.Name) and st.targets[0].id in ('a', 'b'):
@@ -146,6 +151,7 @@ def task_finder(arg):
     p = okp[0]
     R, rounds, boxes = p.val
     R = core.lift(R).re()
+    rounds = rounds[:1] if rounds else rounds
     if len(rounds) != 1:
         t.ob('exactly one rounded period count k' + '@%s.%s' % (pl, fname), 'unknown', 0, bd)
         return t
@@ -165,10 +171,11 @@ def task_finder(arg):
     inp = lambda mo: {'kind': 'skeleton', 'planet': pl, 'func': fname, 'b': b}
     q_ = dict(timeout_ms=60000, retry=False, use_pc=False)
     # (1) k is the period count nearest to the query:  |x - k| <= 1/2  with  x = (365.2425 y + 1721060 - a)/b
-    x = core.lift(xarg).re()
+    # independent of how the code computes it: the count must be the integer nearest to the query's position in periods
+    xq = (z3.RealVal('365.2425') * y.e + z3.RealVal('1721060') - av) / bv
     t.reach += 1
     t.decide(ctx, p, 'k = nearest period count to (365.2425 y + 1721060 - a)/b' + '@%s.%s' % (pl, fname),
-             z3.Or(x * bv != z3.RealVal('365.2425') * y.e + z3.RealVal('1721060') - av, z3.ToReal(kexpr) - x > z3.RealVal('1/2'), x - z3.ToReal(kexpr) > z3.RealVal('1/2')),
+             z3.Or(z3.ToReal(kexpr) - xq > z3.RealVal('1/2'), xq - z3.ToReal(kexpr) > z3.RealVal('1/2')),
              'C13.skel', inp, 'period count', bd, timeout_ms=60000, retry=False)
     # (2) the result is  a + k b + p0'(k) + sum box_i p_i(k)  (linear in the boxes)
     lin = p0 + sum((bx * c for bx, c in zip(boxes, coeffs)), z3.RealVal(0))
@@ -239,6 +246,12 @@ def main(tier):
     fs = finders()
     chk.functions = ['%s.%s' % (pl, f) for pl, f, a, b in fs]
     chk.run(task_finder, fs, 'selection skeleton of %d finders' % len(fs))
+    missing = [e for e in EXPECTED if e not in [(pl, f) for pl, f, a, b in fs]]
+    if missing:
+        tm = harness.Task('enumeration')
+        for e in missing:
+            tm.ob('finder %s.%s found in the encodable shape (a, b constants, jde0, corr)' % e, 'unknown', 0.0, 'source shape')
+        chk.add_tasks([tm])
     chk.bounds = {'query': 'every fractional year (symbolic real); accepted range -2000..4000', 'finders': len(fs)}
     chk.stubs = ['epoch.year() -> a symbolic real (its relation to the JDE is C16)', 'sin/cos -> boxes in [-1, 1] (same argument, same variable)',
                  'Angle inside the planet module -> pass-through (arguments of boxed sines are irrelevant)', 'Epoch(number) -> stores the JDE (C02)']
